@@ -202,6 +202,10 @@ class Exec:
                 return r
         if isinstance(e.op, ast.UAdd) and v.kind == 'int':
             return v
+        if not isinstance(e.op, ast.USub):
+            r = self._dispatch('unary', st, e, type(e.op).__name__, v)     # ~x, +x on theory values
+            if r is not NotImplemented:
+                return r
         raise OutOfSubset('unary %s on %s' % (type(e.op).__name__, v.kind))
 
     def e_BinOp(self, st, e):
@@ -273,8 +277,10 @@ class Exec:
                 elif is_false(ts):
                     m = res
                 else:
-                    # operands of different shape: only the truth value of the whole expression is representable
-                    return SV('truthonly', And(*terms) if isand else Or(*terms))
+                    m = self._dispatch('merge', st, cond, v, res)          # theory values (same hook as conditional expressions)
+                    if m is NotImplemented:
+                        # operands of different shape: only the truth value of the whole expression is representable
+                        return SV('truthonly', And(*terms) if isand else Or(*terms))
             res = m
         return res
 
@@ -324,6 +330,13 @@ class Exec:
 
     def e_Compare(self, st, e):
         left = self.eval(st, e.left)
+        if len(e.ops) == 1:
+            # a single comparison may have a non-boolean value (elementwise comparison of arrays): theories' compare_value hook
+            right0 = self.eval(st, e.comparators[0])
+            r = self._dispatch('compare_value', st, e, type(e.ops[0]).__name__, left, right0)
+            if r is not NotImplemented:
+                return r
+            return B(self.compare(st, e, type(e.ops[0]).__name__, left, right0))
         terms = []
         pushed = 0
         try:
